@@ -1427,13 +1427,19 @@ def replay_case(case):
             return enabled[0]
 
         instr = case.get("instr", "private")
-        try:
-            obs = run_threads(case["mode"], case["programs"], chooser, instr=instr)
-        except InstrumentationError:
-            # the schedule was recorded at the private yield points, which are gone: the same
-            # programs under every public-hook interleaving instead
-            return replay_public_all(case["mode"], case["programs"])
-        bad = oracle(case["programs"], obs, case["mode"])
+        bad = None
+        # the schedule is forced, but the sub-optimizers draw their trials at random: a failure
+        # that depends on which trial wins shows up in some of the repetitions only
+        for _ in range(6):
+            try:
+                obs = run_threads(case["mode"], case["programs"], chooser, instr=instr)
+            except InstrumentationError:
+                # the schedule was recorded at the private yield points, which are gone: the same
+                # programs under every public-hook interleaving instead
+                return replay_public_all(case["mode"], case["programs"])
+            bad = oracle(case["programs"], obs, case["mode"])
+            if bad is not None:
+                break
         return bad is None, (signature(case["mode"], case["programs"], bad) if bad else None), bad
     if kind == "stress":
         # a stress failure depends on the OS schedule: try a number of times
